@@ -35,6 +35,8 @@ DEGRADED_IDS = {}
 # (a construct outside the rule set, typically introduced by a change): emitted as external_body,
 # decided by a pairing Kani harness or undecided (id -> reason)
 UNREADABLE_IDS = {}
+# functions whose injected proof text no longer compiles against the changed body: emitted without hints / loop contracts
+FORCE_DEGRADE = set()
 
 
 class GenError(Exception):
@@ -638,6 +640,8 @@ def emit_fn(card, repo, out, info, twin=False, assumed_here=False):
     # harness or reports it undecided (never a violation on a failed proof alone).
     degraded = None
     try:
+        if fid in FORCE_DEGRADE:
+            raise AnchorLost('%s: the proof script (hints / loop contracts) does not compile against the changed body' % fid)
         hinted = splice_loops_and_hints(card, fid, body)
     except AnchorLost as ex:
         degraded = str(ex)
